@@ -1,10 +1,83 @@
-(** C12 — identity and environment data sources report the process's true state. *)
+(** C12 — identity and environment data sources report the process's true state.
+
+    G  = what vlib/tr_ds.py read from the current tree (clang AST of every data source the registry binds:
+         queries and formats as decision trees; constants of the loop-based sources).
+    CC = the separator / fallback literals of cmdline.c (vlib/translate.py).
+    [eval_ds G CC name st arg sz]  the outcome the generated description gives in process state [st];
+    [documented ... name]          the hand-written table taken from etc/snoopy.ini.in and the source headers. *)
 From Coq Require Import String ZArith NArith List.
-From Snoopy Require Import Lib.CStr Datasource.Cmdline DsTruth.Model.
+From Snoopy Require Import Lib.CStr Datasource.Cmdline DsTruth.Model DsTruth.Proofs.
 From Gen Require Import Gen_Ds Gen_Cmdline.
+Import ListNotations.
+Local Open Scope Z_scope.
 
 Definition G := Gen_Ds.gen.
 Definition CC := Gen_Cmdline.consts.
 
 Lemma gen_ok : ds_consts_ok G = true.
 Proof. vm_compute. reflexivity. Qed.
+Lemma cmdline_ok : cmdline_consts_ok CC = true.
+Proof. vm_compute. reflexivity. Qed.
+
+(** for every process state and every data source of the simple class: the generated description returns the documented value.
+    [in_domain]: ranges the kernel guarantees for ids/pids/clock ([wf_pstate]), NUL-free argument, and the four stated exclusions
+    (timestamp below [ts_exact_below G]; env_all with a buffer of at least 4 bytes; filename/cmdline while an exec call is logged) *)
+Theorem C12_table : forall name st arg sz, In name simple_class -> in_domain G name st arg sz ->
+  eval_ds G CC name st arg sz = documented (g_consts G) st arg sz name.
+Proof. exact (table_general G CC gen_ok cmdline_ok). Qed.
+
+(** uid/euid/gid/egid/pid/ppid/sid/tid/tid_kernel: constant in every field of the state but their own ... *)
+Theorem C12_id_only_own_field : forall name f, id_field name = Some f -> forall st1 st2 a1 a2 sz,
+  wf_pstate st1 -> wf_pstate st2 -> nonul a1 -> nonul a2 -> f st1 = f st2 ->
+  eval_ds G CC name st1 a1 sz = eval_ds G CC name st2 a2 sz.
+Proof. exact (id_only_own_field G CC gen_ok cmdline_ok). Qed.
+(** ... and injective in it (which is what confusing getuid/geteuid/getgid, or %d/%u for ids >= 2^31, breaks) *)
+Theorem C12_id_injective : forall name f, id_field name = Some f -> forall st1 st2 a1 a2 sz,
+  wf_pstate st1 -> wf_pstate st2 -> nonul a1 -> nonul a2 -> (66 <= sz)%N ->
+  eval_ds G CC name st1 a1 sz = eval_ds G CC name st2 a2 sz -> f st1 = f st2.
+Proof. exact (id_injective G CC gen_ok cmdline_ok). Qed.
+
+(** env_all: the entries joined by commas; when the buffer is short, the first size-4 bytes of that text and "..."; never beyond the buffer;
+    environ == NULL gives the empty string *)
+Theorem C12_env_all : forall env sz, (4 <= sz)%N ->
+  env_all (g_consts G) env sz = Some (env_all_spec env sz) /\ (len (env_all_spec env sz) < sz)%N.
+Proof. exact (env_all_general G gen_ok). Qed.
+
+(** the time below which [timestamp] is exact: 2^31 for the int cast of the current source, 2^63 for the full-width form *)
+Lemma C12_timestamp_bound : two31 <= ts_exact_below G.
+Proof. exact (ts_bound_general G). Qed.
+
+(** non-vacuity: a well-formed state with pairwise distinct ids, one of them >= 2^31 and without passwd entry *)
+Definition st_example : pstate :=
+  {| ruid := 4294967294; euid := 1002; suid := 1003; rgid := 2001; egid := 1; sgid := 2003;
+     pid := 4242; ppid := 4000; sid := 3999; pgid := 4242; pthread_id := 140737353971520; ktid := 4243;
+     cwd := Some (lit "/tmp/x"); hostname := lit "vm";
+     fd_tty := fun fd => if fd =? 0 then TtyName (lit "/dev/pts/3") else TtyErr ENOTTY;
+     file_owner := fun p => if list_eqb p (lit "/dev/pts/3") then Some 2147483653 else None;
+     login_name := None; environ := Some [lit "AB=2"; lit "A=1"; lit "LOGNAME=bob"];
+     passwd := fun u => if u =? 1002 then Some (lit "alice") else None;
+     groupdb := fun g => if g =? 1 then Some (lit "daemon") else None;
+     cgroup_file := None; proc_status := fun _ => None; clock_sec := 1790000000; clock_usec := 4567;
+     tz_strftime := fun t f => lit "2026-09-22"; exec_file := Some (lit "/bin/ls"); exec_argv := Some [lit "ls"; lit "-l"] |}.
+
+Example C12_nonvacuous_wf : wf_pstate st_example.
+Proof.
+  constructor; try (vm_compute; intuition congruence).
+  - intros p u. cbn. destruct (list_eqb p (lit "/dev/pts/3")); [|discriminate]. intros E. injection E as <-. vm_compute. intuition congruence.
+  - intros fd. cbn. destruct (fd =? 0); discriminate.
+  - intros env e E I. cbn in E. injection E as <-. cbn in I. repeat (destruct I as [<-|I]; [vm_compute; reflexivity|]). contradiction.
+Qed.
+Example C12_nonvacuous_values :
+  map (fun n => option_map (fun o => (o_ret o, option_map string_of_list_byte (o_buf o))) (eval_ds G CC n st_example (lit "A") 64))
+      ["uid"; "euid"; "gid"; "egid"; "username"; "eusername"; "tty_uid"; "tty_username"; "env"; "login"]%string
+  = [Some (10, Some "4294967294"); Some (4, Some "1002"); Some (4, Some "2001"); Some (1, Some "1"); Some (15, Some "user-4294967294");
+     Some (5, Some "alice"); Some (10, Some "2147483653"); Some (15, Some "user-2147483653"); Some (1, Some "1"); Some (3, Some "bob")]%string.
+Proof. vm_compute. reflexivity. Qed.
+Example C12_nonvacuous_env_all :
+  option_map string_of_list_byte (env_all (g_consts G) (Some [lit "A=1"; lit "LOGNAME=bob"; lit "AB=2"]) 20) = Some "A=1,LOGNAME=bob,..."%string.
+Proof. vm_compute. reflexivity. Qed.
+
+Print Assumptions C12_table.
+Print Assumptions C12_id_only_own_field.
+Print Assumptions C12_id_injective.
+Print Assumptions C12_env_all.
